@@ -10,7 +10,9 @@ import vlib
 
 RULE = ("valid-by-construction operations over generated schemas (interfaces, unions, input objects with defaults, "
         "lists, enums) with nested named/inline fragments, repeated response names, aliases and self-aliases, "
-        "@skip/@include on literals and variables, duplicated leaf and composite fields, literal arguments of every kind "
+        "@skip/@include on literals and variables, duplicated leaf and composite fields, pairs of mergeable selections "
+        "(leaf / composite fields, inline fragments, spreads, also through fragments) with repeated applications of the "
+        "repeatable @rtag in lists that are equal, permuted, equal as sets only, shorter, literal arguments of every kind "
         "(nested input objects, single values for lists, null), variables with/without defaults and values; 2-3 random "
         "universes per document. A case is distinct by the hash of its line and non-trivial when the ORIGINAL document "
         "contains a redex of at least one pass (a fragment or spread, a removable directive, a duplicated leaf, a "
